@@ -90,4 +90,36 @@ crate::harnesses! {
         let mut j = 0;
         while j < 6 { if j < n { assert!(a[j] == v, "filled"); } else { assert!(a[j] == before[j], "frame"); } j += 1; }
     }
+    // wrappers of unit conv_slice: std's copy_from_slice on a prefix / the whole array, split_at, Iterator::any;
+    // slice lengths 0, 1, 2, 3, 6 against arrays of 6 limbs (bounded; lengths are concrete, contents symbolic)
+    #[cfg_attr(kani, kani::unwind(8))] fn core_specs_slice_ctor_wrappers_len6() {
+        fn chk<const N: usize>() {
+            let src: [u64; N] = any();
+            let slice = &src[..];
+            // limbs[..slice.len()].copy_from_slice(slice)
+            let mut limbs: [u64; 6] = any();
+            let before = limbs;
+            limbs[..slice.len()].copy_from_slice(slice);
+            let mut j = 0;
+            while j < 6 { if j < N { assert!(limbs[j] == slice[j], "prefix copied"); } else { assert!(limbs[j] == before[j], "frame"); } j += 1; }
+            // split_at(mid), mid symbolic
+            let mid: usize = any(); assume(mid <= N);
+            let (head, tail) = slice.split_at(mid);
+            assert!(head.len() == mid && tail.len() == N - mid, "split lengths");
+            let mut j = 0;
+            while j < N { if j < mid { assert!(head[j] == slice[j], "head"); } else { assert!(tail[j - mid] == slice[j], "tail"); } j += 1; }
+            // tail.iter().any(|&limb| limb != 0)
+            let got = tail.iter().any(|&limb| limb != 0);
+            let mut want = false;
+            let mut j = 0;
+            while j < tail.len() { if tail[j] != 0 { want = true; } j += 1; }
+            assert!(got == want, "any(|&limb| limb != 0)");
+            // limbs.copy_from_slice(head) with head.len() == N
+            let mut all: [u64; N] = any();
+            all.copy_from_slice(slice);
+            let mut j = 0;
+            while j < N { assert!(all[j] == slice[j], "whole array copied"); j += 1; }
+        }
+        chk::<0>(); chk::<1>(); chk::<2>(); chk::<3>(); chk::<6>();
+    }
 }
